@@ -60,4 +60,45 @@ theorem history_prefix_stable {α β} (f : α → β) (calls later : List α) :
   rw [this, List.take_left']
   rfl
 
+/-- the last call of any history is answered like that call alone in a fresh process -/
+theorem history_fresh {α β} (f : α → β) (before : List α) (c : α) :
+    (history f (before ++ [c])).getLast? = some (f c) ∧ history f [c] = [f c] := by
+  unfold history; simp
+
+/-- **cached_exact_sound**: a one-entry cache keyed on EXACT equality of the argument is invisible —
+    every history is answered like the plain function (from any consistent cache state) -/
+theorem cached_exact_sound {α β} [DecidableEq α] (f : α → β) : ∀ (calls : List α) (st : Option (α × β)),
+    CacheOK f st → cachedHistory (fun a b => decide (a = b)) f st calls = history f calls := by
+  intro calls
+  induction calls with
+  | nil => intro _ _; rfl
+  | cons x r ih =>
+    intro st hst
+    unfold cachedHistory history
+    simp only [List.map_cons]
+    cases st with
+    | none =>
+      simp only [cachedStep]
+      congr 1
+      exact ih _ (by intro k v h; simp only [Option.some.injEq, Prod.mk.injEq] at h; rw [← h.2, ← h.1])
+    | some kv =>
+      obtain ⟨k, v⟩ := kv
+      simp only [cachedStep]
+      by_cases hk : k = x
+      · subst hk
+        have hv : v = f k := hst k v rfl
+        simp only [decide_true, if_true]
+        rw [hv]
+        congr 1
+        exact ih _ (by intro k' v' h; simp only [Option.some.injEq, Prod.mk.injEq] at h; rw [← h.2, ← h.1])
+      · simp only [hk, decide_false, Bool.false_eq_true, if_false]
+        congr 1
+        exact ih _ (by intro k' v' h; simp only [Option.some.injEq, Prod.mk.injEq] at h; rw [← h.2, ← h.1])
+
+/-- … whereas a key compared with a tolerance (anything coarser than equality) makes the second of two
+    near-but-different calls return the first one's answer: the cached history is not the history -/
+theorem cached_near_unsound :
+    cachedHistory (fun (a b : Int) => decide ((a - b).natAbs ≤ 1)) (fun x => x) none [0, 1] = [0, 0] ∧
+    history (fun (x : Int) => x) [0, 1] = [0, 1] := by decide
+
 end Lp.C17
